@@ -45,6 +45,8 @@ impl Append for FileAppender {
     fn append(&self, record: &Record) -> anyhow::Result<()> {
         let mut file = self.file.lock();
         self.encoder.encode(&mut *file, record)?;
+        #[cfg(feature = "verif_hooks")]
+        crate::verif::point("file.append.encoded", 0);
         file.flush()?;
         Ok(())
     }
